@@ -70,6 +70,16 @@ def run(tier, seed):
                         for _ in range(rng.randint(1, 60)))
         script = [rng.randint(1, 4) for _ in range(len(data) + 4)]
         cases.append((data.hex(), ",".join(map(str, script)), "-"))
+    # long inputs read with large reads: a multi-byte character at every alignment around the 4 KiB
+    # and 8 KiB marks (where a buffered reader's window would end)
+    nl = 0
+    for mark in (4096, 8192):
+        for k in range(mark - 6, mark + 3):
+            for ch in ("é", "€", "🤠"):
+                data = b"a" * k + ch.encode() + b"zz\n"
+                for script in ("-", "4096", "8192,1", "4095,2"):
+                    cases.append((data.hex(), script, "-"))
+                    nl += 1
     # faults: a read error at each byte offset
     nf = 0
     for data in sorted(seen)[:: (7 if tier == "quick" else 2)]:
@@ -171,7 +181,7 @@ def run(tier, seed):
                not chk.disagreements, json.dumps(chk.disagreements[:2])[:600])
     chk.coverage.update({"exhaustive": True,
                          "exhaustive_note": f"all strings of <= {maxlen} symbols over a {len(ALPHA)}-symbol alphabet (1..4-byte chars, invalid bytes) x ALL chunkings into reads of 1..4 bytes (a seeded dozen per string for four-symbol strings in the thorough tier): {n_exh} cases; plus {nr} random long inputs, {nf} CharReader fault positions and {len(meta)} whole-assembly fault runs",
-                         "asm_fault_runs": len(meta)})
+                         "asm_fault_runs": len(meta), "long_inputs": nl})
     chk.assumptions = ["str::from_utf8 of Rust std behaves as Spec.Utf8.decodeFirst (validated here against CharReader and Python's decoder)",
                        "faults are injected by the harness's in-memory FileSystem; real OS read errors are runtime behaviour the model cannot exhibit"]
     return chk.finish(
